@@ -16,6 +16,7 @@ import (
 
 	"github.com/openfga/openfga/internal/concurrency"
 	"github.com/openfga/openfga/internal/containers/mpsc"
+	"github.com/openfga/openfga/internal/verifhook"
 )
 
 var tracer = otel.Tracer("openfga/internal/listobjects/pipeline/internal/worker")
@@ -345,6 +346,7 @@ func (c *Core) send(ctx context.Context, buffer []string) {
 		}
 
 		if !listener.Send(ctx, msg) {
+			verifhook.Event("pl.drop", c.Label, IsCyclical(listener.Key()), ctx.Err() != nil)
 			msg.Done()
 		}
 	}
